@@ -28,7 +28,7 @@ ASSUMPTIONS = [
 
 def cfg():
     return P.GenCfg(nq=4, max_items=8, max_depth=2, p_sub=22, p_rel=40, max_reps=3, globals_=True, global_zero=True,
-                    max_total_leaves=60)
+                    max_total_leaves=60, p_dangling=8)
 
 
 def strat():
